@@ -108,6 +108,9 @@ def gen_spec(rng, lo, hi, step):
         if n >= 2 and rng.random() < 0.5:                          # steer towards coinciding on-grid periods
             ds = [step * rng.randint(1, 5) for _ in range(n)]
         sp["ds"], sp["imm"], sp["pend"] = ds, rng.random() < 0.4, gen_pending(rng, step)
+    if kind in ("atTime", "atTimes", "range", "ranges") and rng.random() < 0.3:
+        # the times as a program gets them from datetime.now() or a parsed timestamp: with a sub-second part, which the minute a time denotes ignores
+        sp["us"] = rng.choice((1, 250000, 999999, rng.randint(1, 999999)))
     return sp
 
 
@@ -143,16 +146,20 @@ def construct(sp, do):
                                           PeriodTrigger, PeriodsTrigger)
     kw = json.loads(sp["kw"])
     k = sp["k"]
+    us = timedelta(microseconds=int(sp.get("us", 0)))
+
+    def at(s):
+        return cl.at(s) + us
     if k == "base":
         return Trigger(do, **kw)
     if k == "atTime":
-        return AtTimeTrigger(cl.at(sp["s"]), do, **kw)
+        return AtTimeTrigger(at(sp["s"]), do, **kw)
     if k == "atTimes":
-        return AtTimesTrigger([cl.at(s) for s in sp["ss"]], do, **kw)
+        return AtTimesTrigger([at(s) for s in sp["ss"]], do, **kw)
     if k == "range":
-        return TimeRangeTrigger(TimeRange(cl.at(sp["s"]), cl.at(sp["e"])), do, **kw)
+        return TimeRangeTrigger(TimeRange(at(sp["s"]), at(sp["e"])), do, **kw)
     if k == "ranges":
-        return TimeRangesTrigger([TimeRange(cl.at(a), cl.at(b)) for a, b in sp["rs"]], do, **kw)
+        return TimeRangesTrigger([TimeRange(at(a), at(b)) for a, b in sp["rs"]], do, **kw)
     if k == "period":
         return PeriodTrigger(timedelta(seconds=sp["d"]), do, trigger_immediately=sp["imm"], pending=timedelta(seconds=sp["pend"]), **kw)
     if k == "periods":
